@@ -66,6 +66,8 @@ func main() {
 		}
 	case "codec":
 		err = famCodec(w, *seed, *n)
+	case "batchbuf":
+		err = famBatchBuf(w, *seed, *n)
 	case "crash":
 		err = famCrash(w, *seed, *n)
 	case "readonly":
